@@ -12,7 +12,8 @@ def sh(cmd, env=None):
     p = subprocess.run(cmd, shell=True, stdout=subprocess.PIPE, stderr=subprocess.STDOUT, text=True, env=e)
     return p.returncode, p.stdout
 
-for sd in sys.argv[1:]:
+TRY_ONLY = '--try-only' in sys.argv
+for sd in [a for a in sys.argv[1:] if not a.startswith('--')]:
     sd = os.path.abspath(sd)
     mp = os.path.join(sd, "meta.json")
     meta = json.load(open(mp))
@@ -20,14 +21,16 @@ for sd in sys.argv[1:]:
     v = meta.get("verif", {})
     flags = v.get("demo_flags", FLAGS.get(prop, ("", ""))[0]); libs = v.get("demo_libs", FLAGS.get(prop, ("", ""))[1])
     def ok(line): return bool(line) and "demo_pristine_exit=0" in line[-1] and "suite_passes_with_patch=1" in line[-1] and not re.search(r"demo_patched_exit=0\b", line[-1])
-    for attempt in ([flags] if "demo_flags" in v else [flags, (flags + " -DNDEBUG").strip()]):
+    line = None
+    for attempt in ([] if TRY_ONLY else ([flags] if "demo_flags" in v else [flags, (flags + " -DNDEBUG").strip()])):
         rc, out = sh(f"/verif/selftest/confirm_seed.sh {sd} {attempt}", {"LIBS_DEMO": libs})
         line = [l for l in out.splitlines() if l.startswith("RESULT")]
         flags = attempt
         if ok(line): break
-    v["confirm_cmd"] = f"LIBS_DEMO='{libs}' selftest/confirm_seed.sh {os.path.relpath(sd, '/verif')} {flags}".strip()
-    v["confirm_result"] = line[-1] if line else out[-300:]
-    v["confirmed"] = ok(line)
+    if not TRY_ONLY:
+      v["confirm_cmd"] = f"LIBS_DEMO='{libs}' selftest/confirm_seed.sh {os.path.relpath(sd, '/verif')} {flags}".strip()
+      v["confirm_result"] = line[-1] if line else out[-300:]
+      v["confirmed"] = ok(line)
     runs = []
     for pid in [prop] + meta.get("also_try", []):
         rc, out = sh(f"/verif/selftest/try_seed.sh {pid} {sd}")
